@@ -104,7 +104,9 @@ func (ex *Exec) SplitConst(s *smt.Term, sep string) []*smt.Term {
 	}
 	var pieces []*smt.Term
 	var cur []*smt.Term
-	for _, p := range ex.C.Flatten(s) {
+	parts := ex.C.Flatten(s)
+	for i := 0; i < len(parts); i++ {
+		p := parts[i]
 		if p.IsConst {
 			sub := strings.Split(p.S, sep)
 			for k, x := range sub {
@@ -114,7 +116,28 @@ func (ex *Exec) SplitConst(s *smt.Term, sep string) []*smt.Term {
 				}
 				cur = append(cur, ex.C.StrC(x))
 			}
-		} else {
+			continue
+		}
+		// a separator may start inside this atom and finish in the constant that follows it
+		straddled := false
+		if i+1 < len(parts) && parts[i+1].IsConst && len(sep) > 1 {
+			next := parts[i+1].S
+			for k := len(sep) - 1; k >= 1 && !straddled; k-- {
+				a, b := sep[:k], sep[k:]
+				if !strings.HasPrefix(next, b) {
+					continue
+				}
+				if ex.Branch(ex.C.SuffixOf(ex.C.StrC(a), p)) {
+					n := ex.C.Len(p)
+					cur = append(cur, ex.C.Substr(p, ex.C.IntC(0), ex.C.Sub(n, ex.C.IntC(int64(k)))))
+					pieces = append(pieces, ex.C.Concat(cur...))
+					cur = nil
+					parts[i+1] = ex.C.StrC(next[len(b):])
+					straddled = true
+				}
+			}
+		}
+		if !straddled {
 			cur = append(cur, p)
 		}
 	}
@@ -128,11 +151,7 @@ func (ex *Exec) SplitConst(s *smt.Term, sep string) []*smt.Term {
 		if !ex.Proves(ex.C.Not(ex.C.Contains(p, sepT))) {
 			ex.Inconclusive(fmt.Sprintf("cannot split %s structurally at %q", s, sep))
 		}
-		if len(sep) > 1 && k < len(pieces)-1 {
-			if !ex.Proves(ex.C.Eq(ex.C.IndexOf(ex.C.Concat(p, sepT), sepT, ex.C.IntC(0)), ex.C.Len(p))) {
-				ex.Inconclusive(fmt.Sprintf("separator %q may straddle a piece boundary in %s", sep, s))
-			}
-		}
+		_ = k
 	}
 	return pieces
 }
@@ -534,7 +553,18 @@ func (ex *Exec) Sanitize(r *Replacer, seg *smt.Term, lower bool) *smt.Term {
 		return ex.C.StrC(out)
 	}
 	if parts := ex.C.Flatten(seg); len(parts) > 1 {
-		ex.Inconclusive("Replacer.Replace on a concatenation")
+		// the replacer works piecewise unless one of its multi-character patterns (go-, -go) can
+		// straddle a boundary: that needs a constant piece starting or ending with one of - g o
+		var out []*smt.Term
+		for i, p := range parts {
+			if p.IsConst && p.S != "" {
+				if (i > 0 && strings.ContainsRune("-go", rune(p.S[0]))) || (i < len(parts)-1 && strings.ContainsRune("-go", rune(p.S[len(p.S)-1]))) {
+					ex.Inconclusive("Replacer.Replace on a concatenation whose constant piece may complete a multi-character pattern")
+				}
+			}
+			out = append(out, ex.Sanitize(r, p, lower))
+		}
+		return ex.C.Concat(out...)
 	}
 	for _, p := range r.Pairs {
 		_ = p
